@@ -342,6 +342,19 @@ func init() {
 		in.e.inputs = append(in.e.inputs, inputDecl{name: name, kind: "int", t: v, w: 32})
 		return v
 	})
+	// strings.Builder: the unsafe parts (copyCheck's self pointer, grow's MakeNoZero, String's
+	// unsafe.String) are replaced; the appends in WriteString/WriteByte/Write run from SSA.
+	reg("(*strings.Builder).copyCheck", func(in *Interp, fr *frame, fn *ssa.Function, a []Value, site string) Value { return nil })
+	reg("(*strings.Builder).Grow", func(in *Interp, fr *frame, fn *ssa.Function, a []Value, site string) Value { return nil })
+	reg("(*strings.Builder).grow", func(in *Interp, fr *frame, fn *ssa.Function, a []Value, site string) Value { return nil })
+	reg("(*strings.Builder).String", func(in *Interp, fr *frame, fn *ssa.Function, a []Value, site string) Value {
+		sl, ok := a[0].(*StructLoc)
+		if !ok {
+			panic(targetPanic{runtime: "invalid memory address or nil pointer dereference (nil *strings.Builder)", site: site})
+		}
+		b, _ := load(sl.fields[1]).(BSlice)
+		return bsliceStr(b)
+	})
 	registerSyncIntrinsics(reg)
 	registerTimeIntrinsics(reg)
 	registerBinaryIntrinsics(reg)
